@@ -86,7 +86,23 @@ BROKER['C03'] = ('Decoder.Read depends on the byte stream only, never on how it 
                  'wire ++ buffer = concatenation of the encodings in send order and the buffer is empty after a sync write/flush; WebSocket message boundaries are irrelevant (ws_fragmentation_irrelevant): Lean theorems. The real packet.Decoder/Encoder/Stream, mercury.Writer and the '
                  'transport WebSocket/TCP connections are compared with the model on every 2-/3-way split of short streams, random chunkings, truncations, limits, garbage, encoder scripts and real loopback pairs. Partial: ws_stitch holds under gorilla\'s reader contract (EOF arrives alone); the unrestricted statement is refuted by a latent (n>0, EOF) case that gorilla over TCP never produces.',
                  'Lean 4 proof (chunk-invariance and round-trip by induction over chunk lists / event lists) + differential correspondence')
-NOTE_OVERRIDE = {'C03': TBX + 'Modelled by contract, not verified: bufio.Reader (Peek/ReadFull), gorilla/websocket message readers, mercury.Writer (from its source); io.ErrNoProgress and real timer timing are not modelled.',
+BROKER['C09'] = ('Stored-before-sent, kept-until-acknowledged, PUBREC replaces by PUBREL, retransmission of exactly the stored list in store order with DUP on the next connect, futures complete only inside the acknowledgement handler for their id '
+                 '(QoS 0: after the send), no pending future once the client is disconnected with no call in progress and no processor (proves that re-checking the state after Put closes the race with cleanup), Close/Disconnect never block, accessors never panic: '
+                 'Lean theorems over every step sequence of the client LTS (API calls split into their statements so that the unlocked processor cleanup can fall between any two). The real client.Client runs against a scripted broker over Config.Dialer inside a '
+                 'testing/synctest bubble with a wrapping session that can fail or park every operation. Partial: all_resolved_at_end is proved without the keep-alive pinger; the unrestricted statement is refuted by a pinger/CONNACK interleaving at model level that could not be forced on the real code.',
+                 'Lean 4 proof (invariants over every step sequence of an LTS at statement granularity) + trace conformance')
+BROKER['C10'] = ('PUBREC for every QoS 2 PUBLISH, PUBCOMP for every PUBREL (unknown ids included), QoS 0/1 passed on in arrival order with PUBACK after the callback, callback error => no acknowledgement and connection closed, and exactly one callback per QoS 2 handshake '
+                 'for client || well-behaved broker over all reachable states (lost acknowledgements, duplicated PUBLISH, repeated PUBREL, interleaved ids and reconnects unconstrained): Lean theorems. Broker scripts with send failures at every acknowledgement and both callback modes '
+                 'are replayed against the real client.',
+                 'Lean 4 proof (invariants over client || broker-monitor product) + trace conformance')
+BROKER['C17'] = ('subscriptions = fold of the dispatched subscribe/unsubscribe commands (refining the C05 map), resubscribe request = that set sorted by topic as the first write after online, command queue FIFO and untouched by failures, the protected store keeps futures across reconnects and the matching acknowledgement completes them, '
+                 'Stop is always enabled, makes progress, returns and with clearFutures leaves no command future pending, Start works afterwards: Lean theorems over every reachable state of the service LTS. The real client.Service runs against scripted connections (dial refused, CONNECT unsendable, no CONNACK, drops, rejected subscriptions, '
+                 'late acknowledgements) inside a testing/synctest bubble, every Stop under a watchdog. Partial: liveness is proved up to the runtime (durations, scheduler, select fairness are observed only).',
+                 'Lean 4 proof (invariants and a progress measure over every reachable state of an LTS) + trace conformance')
+NOTE_OVERRIDE = {'C09': TBX + 'Not modelled: the keep-alive pinger in the conformance run (the fake clock re-arms a zero timer for ever; the pinger is in the model and theorems only), real time.',
+ 'C10': TBX + 'The early-callback mode is modelled; exactly-once is claimed for the default mode only, as the property says.',
+ 'C17': TBX + 'Not modelled: backoff durations, real time; the client is abstracted to its observable connection-attempt outcomes (its internals are C09/C10).',
+ 'C03': TBX + 'Modelled by contract, not verified: bufio.Reader (Peek/ReadFull), gorilla/websocket message readers, mercury.Writer (from its source); io.ErrNoProgress and real timer timing are not modelled.',
 'C19': TBX + 'Not modelled: OS socket behaviour, real blocking, partial carrier writes; packets are opaque byte strings here (framing is C03).'}
 import json as _json, os as _os
 _props = _json.load(open(_os.path.join(_os.path.dirname(_os.path.dirname(_os.path.abspath(__file__))), 'lean', 'PROPS.json')))
